@@ -1266,6 +1266,25 @@ func c13Bytes(grams []*hx.CmdGrammar, one func(int, []string) bool) {
 			}
 		}
 	}
+	// pattern classes that hold "!", "^" and "[" themselves, over names that consist of them
+	for _, name := range []string{"!", "^", "!x", "^x", "[", "k!"} {
+		for _, st := range [][]string{{"SET", name, "v"}, {"SADD", "be", name}, {"ZADD", "bz", "1", name}, {"HSET", "bh", name, "v"}} {
+			if !send(st...) {
+				return
+			}
+		}
+	}
+	for _, pat := range []string{"[!k]*", "[[!]", "[[!]*", "[a[!]", "[^!]*", "[!^]", "[!a-c]*", "k[!1]", "[^ab[!^]*", "[]!]"} {
+		for _, st := range [][]string{{"SCAN", "0", "MATCH", pat, "COUNT", "1000"}, {"KEYS", pat}, {"SSCAN", "be", "0", "MATCH", pat, "COUNT", "1000"},
+			{"ZSCAN", "bz", "0", "MATCH", pat, "COUNT", "1000"}, {"HSCAN", "bh", "0", "MATCH", pat, "COUNT", "1000"}} {
+			if !send(st...) {
+				return
+			}
+		}
+	}
+	if !send("DEL", "!", "^", "!x", "^x", "[", "k!") {
+		return
+	}
 	for _, st := range [][]string{{"SMEMBERS", "be"}, {"ZRANGE", "bz", "0", "-1"}, {"HGETALL", "bh"}, {"LRANGE", "bl", "0", "-1"}, {"DEL", "bs", "be", "bz", "bh", "bl"}} {
 		if !send(st...) {
 			return
